@@ -65,10 +65,14 @@ class Contract:
                 out.append((item[0], tobool(item[1])))
         return out
 
-    def eval_ensures(self, c, with_uses=False):
+    def eval_ensures(self, c, with_uses=False, for_caller=False):
+        """for_caller: the clauses a call site may assume. A clause whose 5th element is
+        {"assume": False} is a top-level (property) clause: proved for the function, not handed to callers."""
         out = []
         for fn in self._ensures:
             for item in fn(c):
+                if for_caller and len(item) > 4 and item[4] and item[4].get("assume") is False:
+                    continue
                 name, term = item[0], tobool(item[1])
                 tags = list(item[2]) if len(item) > 2 else []
                 uses = list(item[3]) if len(item) > 3 and item[3] is not None else None
